@@ -129,11 +129,11 @@ def run(tier):
     bound = 2 if tier == "thorough" else 1
     sched = 0
     tasks = [(functools.partial(sched_execute, v), sched_check, bound) for v in ("eof", "dpr", "double")]
-    for v, r in zip(("eof", "dpr", "double"), scheddfs.explore_many(tasks)):
+    for v, r in zip(("eof", "dpr", "double"), (scheddfs.explore_many(tasks) if tier != "thorough" else scheddfs.explore_many_capped(tasks, 1, 600))):
         sched += r["executions"]
         for (key, detail), choices in r["violations"]:
             rep.add(Violation(key, f"[send_answer racing with {v}, bound {bound}] choices {choices}: {detail}", {"sched": v, "choices": choices}))
-        rep.sample({"schedule_exploration": f"send_answer in its own thread vs the I/O thread handling {v}", "preemption_bound": bound,
+        rep.sample({"schedule_exploration": f"send_answer in its own thread vs the I/O thread handling {v}", "preemption_bound": bound, "bound_completed_without_cap": r.get("bound_completed", bound), "capped": r.get("capped", False),
                     "executions": r["executions"], "distinct_outcomes": len(r["outcomes"]), "branching_points": r["max_points"]})
     depth = 6 if tier == "thorough" else 5
     tot = monitors.run_models(rep, models(tier), depth, dedup_depth_plain=depth - 2, time_cap=1500 if tier == "thorough" else 110)
